@@ -87,6 +87,21 @@ __CPROVER_ensures(__CPROVER_return_value == MFalse || __CPROVER_return_value == 
 """, 'uint32 t; IsTypeCodeVariableSize(t);', None),
 ]
 
+MM_FIXED = ' || '.join('f->typeCode == %s' % t for t in ('B_BOOL_TYPE', 'B_DOUBLE_TYPE', 'B_FLOAT_TYPE', 'B_INT64_TYPE', 'B_INT32_TYPE', 'B_INT16_TYPE',
+                                                        'B_INT8_TYPE', 'B_POINTER_TYPE', 'B_POINT_TYPE', 'B_RECT_TYPE'))
+MM_INPLACE = [
+    # fixed-size field types only: entry = [name length][name][type code][data length][numItems*itemSize data bytes];
+    # the two loops of the variable-size branch are unreachable under the precondition (unwinding assertions confirm it)
+    ('GetMMessageFieldFlattenedSize', 'static uint32 GetMMessageFieldFlattenedSize(const MMessageField * f, MBool includeHeaders)\n{', r"""
+static uint32 GetMMessageFieldFlattenedSize(const MMessageField * f, MBool includeHeaders)
+__CPROVER_requires(__CPROVER_is_fresh(f, sizeof(MMessageField)))
+__CPROVER_requires(%s)
+__CPROVER_assigns()
+__CPROVER_ensures(__CPROVER_return_value == (uint32)((includeHeaders ? 12u + f->nameBytes : 0u) + f->numItems * f->itemSize))
+;
+""" % MM_FIXED, 'const MMessageField *f; MBool h; GetMMessageFieldFlattenedSize(f, h);', None, dict(unwind=1)),
+]
+
 
 def mini_leaf_jobs():
     """Leaves of the C MiniMessage codec (Route C, the real file, nothing injected): the bounds-checked cursor read that every
@@ -96,6 +111,13 @@ def mini_leaf_jobs():
     for fn, con, body, bound in MM_LEAVES:
         J.append(Job('mm_' + fn, MM_PRE + con + src + '\nvoid h_main(void) { %s %s }\n' % (body, END), 'h_main', enforce=[fn], loops=False,
                      klass='bounded' if bound else 'proved', bound=bound, functions=[(MM_C, fn)], timeout=600, split=0))
+    # contracts that mention file-local struct types are placed (mechanically, must match exactly once) directly before
+    # the function's definition line instead of before the file
+    for fn, sig, con, body, bound, kw in MM_INPLACE:
+        if src.count(sig) != 1:
+            raise RuntimeError('MiniMessage.c: definition line of %s matched %d times (must be 1)' % (fn, src.count(sig)))
+        J.append(Job('mm_' + fn, MM_PRE + src.replace(sig, con + sig) + '\nvoid h_main(void) { %s %s }\n' % (body, END), 'h_main', enforce=[fn], loops=False,
+                     klass='bounded' if bound else 'proved', bound=bound, functions=[(MM_C, fn)], timeout=600, split=0, **kw))
     return J
 
 
@@ -109,7 +131,7 @@ def meta(tier):
     L = codec.lower()
     m = codec.meta_common(L)
     m.update(level='proof',
-             not_lowered=['Message::Flatten framing (Hashtable iteration)', 'lang/python3 (no verifier for Python here)', 'MiniMessage.c above its leaves: MMFlattenMessage / MMUnflattenMessage / FlattenMMessageField / SwapCopy are not under contract (only the cursor read/write ReadData / WriteData, WillUnsignedAddOverflow and the type table IsTypeCodeVariableSize are); WillUnsignedMultiplyOverflow: contract tried (result == 64-bit product > 2^32-1), the 32-bit divide does not finish on any back end in 4 min, not registered', 'MicroMessage field-level writers UMAdd* (only its primitive readers/writers are covered)'],
+             not_lowered=['Message::Flatten framing (Hashtable iteration)', 'lang/python3 (no verifier for Python here)', 'MiniMessage.c above its leaves: MMFlattenMessage / MMUnflattenMessage / FlattenMMessageField / SwapCopy are not under contract (only the cursor read/write ReadData / WriteData, WillUnsignedAddOverflow, the type table IsTypeCodeVariableSize and GetMMessageFieldFlattenedSize for fixed-size field types are); WillUnsignedMultiplyOverflow: contract tried (result == 64-bit product > 2^32-1), the 32-bit divide does not finish on any back end in 4 min, not registered', 'MicroMessage field-level writers UMAdd* (only its primitive readers/writers are covered)'],
              explanation='Each LittleEndianConverter::Export/Import overload and each DataFlattener Write* method is enforced against the documented byte layout '
                          '(exactly sizeof(T) bytes, byte k = bits 8k..8k+7) for all 2^(8*sizeof T) values; the writer contracts add cursor and frame conditions.')
     return m
